@@ -1045,6 +1045,11 @@ func RunSession(spec *SessSpec) *Trace {
 				ck.Store = s.readStore()
 				tr.Checks = append(tr.Checks, ck)
 			}
+		case "waitlog": // wait (bounded) until the library has written a log line containing st.Sel (the key must be listed in LogDelayMs)
+			key := st.Sel
+			hx.WaitFor(12*time.Second, func() bool {
+				return len(env.Log.Filter(func(r evlog.Rec) bool { return r.K == "log.delay" && r.S == key })) > 0
+			})
 		case "collfail":
 			atomic.StoreInt32(collFail, 1)
 			env.Log.Add(evlog.Rec{K: "ctl.collfail", VB: -1})
